@@ -130,11 +130,24 @@ impl Case {
                 for k in 0..self.pre_rows {
                     rows.push(small_row(n, k));
                 }
-                rows.push(RowProg { cells: cells_v, form: if self.seed % 2 == 0 { RowForm::WriteRow } else { RowForm::Cols } });
-                for k in 0..self.post_rows {
-                    rows.push(small_row(n, k + 7));
+                rows.push(RowProg {
+                    cells: cells_v,
+                    // written with write_row, with write_col + end_row, or with write_col only and left for
+                    // finish to end (then it has to be the last row)
+                    form: match self.seed % 3 {
+                        0 => RowForm::WriteRow,
+                        1 => RowForm::Cols,
+                        _ => RowForm::ColsOpen,
+                    },
+                });
+                let open = self.seed % 3 == 2;
+                if !open {
+                    for k in 0..self.post_rows {
+                        rows.push(small_row(n, k + 7));
+                    }
                 }
-                let prog = Program { steps: vec![Step::Set { cols: small_cols(n), rows, end: SetEnd::Finish }] };
+                let end = if open && self.seed % 2 == 0 { SetEnd::DropRowWriter } else { SetEnd::Finish };
+                let prog = Program { steps: vec![Step::Set { cols: small_cols(n), rows, end }] };
                 let cmd = if bin { Cmd::Execute { id: 1, params: vec![], send_types: false, flags: 0, iterations: 1 } } else { Cmd::Query { text: Blob::text("big") } };
                 (cmd, prog, self.target)
             }
@@ -294,7 +307,20 @@ impl Prop for C04 {
                     i += 1;
                     let data = [i.wrapping_mul(0x9E37_79B9), i << 28, i << 20, 0x8000_0000u32.wrapping_mul(i), i << 30, i << 29, i << 27];
                     let mut g = G::new(&data);
-                    v.push(gen_case(&mut g, target, a.clone()));
+                    let mut c = gen_case(&mut g, target, a.clone());
+                    // rotate the row form (write_row / write_col+end_row / left open) per case
+                    c.seed = c.seed - c.seed % 3 + i % 3;
+                    v.push(c.clone());
+                    if d.abs() <= 1 && matches!(a, Assembly::TextRow { .. } | Assembly::BinRow { .. }) {
+                        // exact multiples and their neighbours: all three forms
+                        for f in 0..3u32 {
+                            if f != i % 3 {
+                                let mut c2 = c.clone();
+                                c2.seed = c.seed - c.seed % 3 + f;
+                                v.push(c2);
+                            }
+                        }
+                    }
                 }
             }
         }
